@@ -1579,7 +1579,7 @@ def _sweeps(run, thorough):
                 bd.check(orc_elementwise, dict(which=which, n_cond=4 if len(st[0]) == 6 else 3, rows=st, dtype=dt,
                                                measure=MEASURES[i % len(MEASURES)], desc=ALL_KINDS[i % len(ALL_KINDS)]),
                          which + ',typed:' + dt, function=which + '_transform')
-    if False:  # pending triage: sqrt,8-bit-integer-typed
+    if True:   # repaired in /repo 472c8e40 (was pending triage): sqrt,8-bit-integer-typed
         for dt in ('int8', 'uint8'):
             for st in _stacks(wo6, 3, 59)[:k_enum]:
                 i += 1
@@ -1632,7 +1632,7 @@ def _sweeps(run, thorough):
                                           measure=MEASURES[j % len(MEASURES)], desc=ALL_KINDS[j % len(ALL_KINDS)]),
                          label(dt), function='minmax_transform')
     minmax_typed(('float32',), ('float32',), lambda dt: 'typed:' + dt)
-    if False:  # pending triage: integer-typed
+    if True:   # repaired in /repo 472c8e40 (was pending triage): integer-typed
         minmax_typed(INT_DTYPES, ('int16', 'int32', 'int64'), lambda dt: 'integer-typed')
     for u in UNITS:
         for st in _stacks(nc6, 3, 67)[:k_enum]:
@@ -1726,7 +1726,7 @@ def _sweeps(run, thorough):
                                             measure=MEASURES[j % len(MEASURES)], desc=ALL_KINDS[j % len(ALL_KINDS)]),
                          label(dt), function='geodesic_transform')
     geodesic_typed(('float32',), ('float32',), lambda dt: 'typed:' + dt)
-    if False:  # pending triage: integer-typed
+    if True:   # repaired in /repo 472c8e40 (was pending triage): integer-typed
         geodesic_typed(INT_DTYPES, ('int8', 'int16', 'int64'), lambda dt: 'integer-typed')
     for u in UNITS:
         for st in _stacks(nc6, 3, 73)[:k_enum]:
@@ -1874,7 +1874,7 @@ def _sweeps(run, thorough):
                         bd.check(orc_rank_invariance,
                                  dict(seed=seed, n_cond=4 + i % 3, n_rdm=[1 + i % 2, 1 + (i // 2) % 2], kind=kind, n_nan=n_nan,
                                       f=ff, g=gg, method=method, dtype=dt), f'{method},{kind},typed:{dt}', function='compare')
-    if False:  # pending triage: integer-typed (the defect of minmax_transform seen through compare: order and ties are lost)
+    if True:   # repaired in /repo 472c8e40 (was pending triage): integer-typed (the defect of minmax_transform seen through compare: order and ties are lost)
         for method in RANK_SIMS:
             for dt in INT_DTYPES:
                 for kind in ('lattice', 'nonneg', 'distinct'):
